@@ -37,4 +37,10 @@ def run(pid: str, tier: str, seed: int, replay: str | None) -> int:
     if pid in SOLVER_TEXT:
         from . import solver_drv
         return solver_drv.run_prop(pid, tier, seed, SOLVER_TEXT[pid], None)
+    if pid == 'C07':
+        from . import pair_drv
+        return pair_drv.run_C07(tier, seed)
+    if pid == 'C12':
+        from . import pair_drv
+        return pair_drv.run_C12(tier, seed)
     raise Machinery(f'no check registered for {pid}')
